@@ -6,7 +6,7 @@ Require Import PonyV.Model.C19Txn PonyV.Proofs.C19Base PonyV.Proofs.C19Proofs Po
 Lemma set_lock_same : forall s, set_lock (lock s) s = s.
 Proof. destruct_st. reflexivity. Qed.
 Lemma WF_lock_irrel : forall L s, WF s -> (mine s = true -> L = true) -> WF (set_lock L s).
-Proof. intros L. destruct_st. intros [[? ? ? ? ? ? ? ? ? ? ? ?] ? ?] ?. norm. wf_tac. Qed.
+Proof. intros L. destruct_st. intros [[? ? ? ? ? ? ? ? ? ? ? ? ?] ? ?] ?. norm. wf_tac. Qed.
 Lemma Ext_set_sess_other : forall sh s, other (set_sess sh s) = other s.
 Proof. reflexivity. Qed.
 
@@ -132,7 +132,7 @@ Qed.
 Lemma good_ev_other : forall sh e, good_ev sh true e = true -> is_write e = false /\ e_mine e = false.
 Proof.
   intros sh [c i ok lk tx mn pd] H. unfold good_ev, is_write, is_stmt in *. cbn in *.
-  destruct c as [| |q| | |]; try destruct q; destruct sh, tx, lk, mn; cbn in *;
+  destruct c as [| |q|q| | |]; try destruct q; destruct sh, tx, lk, mn; cbn in *;
     try destruct (pd =? 0); cbn in *; try discriminate; auto.
 Qed.
 
